@@ -249,8 +249,6 @@ def cases(tier):
     for name in sorted(RAW_AXES):
         add({"kind": "raw", "h": 0.1, "name": name}, len(RAW_AXES[name]))
 
-    out += _hist_cases(tier)
-
     # 1-d models
     indep = {"fixed", "geometric-bounds"}
     g1 = [g for g in A.grid_specs(tier, 1) if g["kind"] not in indep] + _extra_model_grids(tier, 1)
@@ -287,6 +285,9 @@ def cases(tier):
         if thorough and cm["copula"]["kind"] == "independent":
             for g in gs:
                 add(g, dim, cmodel=dict(cm, exp=True))
+
+    # histories on one re-used model object (last: the longest cases)
+    out += _hist_cases(tier)
     return out
 
 
